@@ -51,6 +51,9 @@ def render(e):
     if k == "kwcall":
         args = ", ".join("%s=%s" % (kw, render(a)) for kw, a in e[2])
         return "%s(%s)" % (render(e[1]), args)
+    if k == "matchv":
+        # ["matchv", cells-object expression, args]: the value of the best matching entry (Cells.match)
+        return "%s.match(%s).value" % (render(e[1]), ", ".join(render(a) for a in e[2]))
     if k == "value":
         return "%s.value" % render(e[1])
     if k == "bin":
@@ -175,7 +178,7 @@ def walk(e):
         return
     if k == "attr" or k == "value":
         yield from walk(e[1])
-    elif k == "call":
+    elif k == "call" or k == "matchv":
         yield from walk(e[1])
         for a in e[2]:
             yield from walk(a)
